@@ -21,8 +21,10 @@
     (b) the steps of that argument as separate theorems (kept from earlier rounds);
     (c) the trial period: in every state reachable without a debiting check-in every balance is zero,
         no check-in of any number of flights is refused as grounded, and the daily update credits nobody.
-    NOT proved: that a simulation run IS a conforming history (this needs the trip rules of C05/C06
-    for the configured trip lengths and the planner of pkg/model), and anything about the 1000-line
+    The update clause of the discipline is discharged for the shapes the bot's trip histories take
+    ([C20_bot_trip_shapes_follow_the_update_discipline], from the C06 characterisation of Update).
+    NOT proved: that the planner of pkg/model produces exactly such histories (start days, trip lengths
+    against TripLength, one outbound and one return flight), and anything about the 1000-line
     simulation driver (configuration handling, planning threads, reporting, files).  Both are
     exercised on every run: protocol histories on the real flap.Engine compared call by call with the
     model, and the real Build/Run in child processes over generated worlds and configurations. *)
@@ -30,7 +32,7 @@ From Coq Require Import ZArith List Bool.
 From Coq Require Import Lia.
 From Flap Require Import Model.Num Model.NumF Model.NumZ Model.TripHistory Model.Promises Model.Predictor Model.Engine
   Proofs.PromisesP Proofs.PromisesFrameP Proofs.ClearedP Proofs.EngineInv Proofs.UpdateAllP Proofs.ProtocolP Proofs.TrialP
-  Proofs.TableP Proofs.HistoryP Proofs.HistoryEngineP.
+  Proofs.TableP Proofs.ItineraryP Proofs.HistoryP Proofs.HistoryEngineP Proofs.BotShapeP.
 Import ListNotations.
 Open Scope Z_scope.
 
@@ -151,6 +153,17 @@ Theorem C20_engine_step_keeps_invariant : forall (N : NumOps) mx, 1 <= mx ->
   EJ mx c e -> x_conforms mx c e x -> x_accepted e x /\ EJ mx (x_clock c e x) (x_apply e x).
 Proof. exact @x_step. Qed.
 Print Assumptions C20_engine_step_keeps_invariant.
+
+(** the update clause of the discipline follows from the shape of the bot's trip histories: no flights
+    yet / between trips / outbound flown / outbound and return flown, with promises on, the return at
+    least FlightInterval days after the outbound landed, the trip within TripLength whole days at the
+    update, and room for three flights *)
+Theorem C20_bot_trip_shapes_follow_the_update_discipline :
+  forall (N : NumOps) clk (t : traveller N) (p : params N) share now,
+  clk <= now -> 0 <= now -> now mod SecondsInDay = 0 -> length (entries (t_hist t)) = MaxFlights ->
+  bot_shape (th_params p) now (t_hist t) -> conforms clk t (EUpdate p share now).
+Proof. exact @bot_shape_update_conforms. Qed.
+Print Assumptions C20_bot_trip_shapes_follow_the_update_discipline.
 
 (** what an accepted proposal does to the promises already made *)
 Theorem C20_proposal_frame : forall (N : NumOps) mx (b : book N) ts te d tr now (pr : predictor N) pp,
